@@ -20,6 +20,8 @@ import (
 	"io/fs"
 	"net/http"
 	"net/url"
+	"os"
+	"runtime"
 	"sort"
 	"strings"
 	"sync"
@@ -312,6 +314,35 @@ func v1Export(ctx context.Context, ds []*fakeData, prev io.ReaderAt) ([]byte, ma
 	return buf.Bytes(), fac.prevFP, ""
 }
 
+// seekOnly hides every way of learning the size but Seek.
+type seekOnly struct {
+	io.ReaderAt
+	io.Seeker
+}
+
+// readerFor offers the export to Parse through each of the three ways openZip
+// knows to find its size: a Size method, a Stat method, Seek.
+func readerFor(export []byte) io.ReaderAt {
+	switch len(export) % 3 {
+	case 0:
+		return bytes.NewReader(export)
+	case 1:
+		f, err := os.CreateTemp("", "verif-c16-export.")
+		if err != nil {
+			return bytes.NewReader(export)
+		}
+		os.Remove(f.Name())
+		f.Write(export)
+		f.Seek(int64(len(export)/2), io.SeekStart) // the position must not matter
+		runtime.SetFinalizer(f, func(f *os.File) { f.Close() })
+		return f
+	default:
+		r := bytes.NewReader(export)
+		r.Seek(int64(len(export)/3), io.SeekStart)
+		return seekOnly{r, r}
+	}
+}
+
 func v1Import(ctx context.Context, ds []*fakeData, export []byte) ([]storeCall, string) {
 	fac := &fakeFactory{ds: ds, prevFP: map[string]string{}}
 	st := &recStore{}
@@ -323,7 +354,7 @@ func v1Import(ctx context.Context, ds []*fakeData, export []byte) ([]storeCall, 
 	res := make(chan string, 1)
 	go func() {
 		res <- hx.Guard(func() string {
-			if err := u.Parse(ctx, bytes.NewReader(export)); err != nil {
+			if err := u.Parse(ctx, readerFor(export)); err != nil {
 				return "err:" + err.Error()
 			}
 			return ""
